@@ -107,6 +107,9 @@ BOUNDARY = [
     # 4.6 condition 6: the tag name may be followed by '/>' as well as by a space, a tab, '>' or the end of the line - such a
     # block interrupts a paragraph
     (['text', '<hr/>', '', 'text', '<div/>x', '', '<HR/>', '*a*'], '<p>text</p>\n<hr/>\n<p>text</p>\n<div/>x\n<HR/>\n*a*'),
+    # 5.1 (examples 239-241): a block quote can be empty - bare markers, between blocks, first in its container, last in its container
+    (['a', '', '>', '', 'b'], '<p>a</p>\n<blockquote>\n</blockquote>\n<p>b</p>'), (['>', '>  ', '> '], '<blockquote>\n</blockquote>'),
+    (['> >', '> foo'], '<blockquote>\n<blockquote>\n</blockquote>\n<p>foo</p>\n</blockquote>'), (['x', '', '>'], '<p>x</p>\n<blockquote>\n</blockquote>'),
 ]
 LEAVES = LEAVES + ['boundary:%d' % i for i in range(len(BOUNDARY))]
 
